@@ -75,3 +75,22 @@ Example full_address_entry_prefix_kept_refuted :
   let c := {| envnoathost := []; locals := []; percenthack := []; vdoms := [([97;64;98], [117])] |} in      (* a@b:u *)
   rewrite c [97;64;98] = Local [117;45;97;64;98] /\ stripvdomprepend c [117;45;97;64;98] = [117;45;97;64;98].
 Proof. vm_compute. split; reflexivity. Qed.
+
+(* ---- the markers survive forwarding (qmail-local.c: the envelope sender of forwarded copies) ----
+   Loop freedom is a property of the whole chain: a double bounce forwarded by a local alias must still be
+   recognisable as one when the forward fails. *)
+From NQ Require Local.Owner Local.OwnerProofs.
+Theorem forwarded_bounce_keeps_its_sender : forall sender local host dash ext st,
+  sender = [] \/ sender = Owner.s_dbl_ -> Owner.forward_sender sender local host dash ext st = Some sender.
+Proof. exact OwnerProofs.marker_sender_kept. Qed.
+Print Assumptions forwarded_bounce_keeps_its_sender.
+Theorem forwarding_neither_makes_nor_unmakes_a_bounce : forall sender local host dash ext st s',
+  Owner.forward_sender sender local host dash ext st = Some s' ->
+  (s' = [] <-> sender = []) /\ (s' = Owner.s_dbl_ <-> sender = Owner.s_dbl_).
+Proof. exact OwnerProofs.forward_keeps_markers. Qed.
+Print Assumptions forwarding_neither_makes_nor_unmakes_a_bounce.
+Theorem forward_sender_is_original_or_owner : forall sender local host dash ext st s',
+  Owner.forward_sender sender local host dash ext st = Some s' ->
+  s' = sender \/ s' = local ++ Owner.s_owner ++ [64%N] ++ host \/ s' = local ++ Owner.s_owner ++ [45%N; 64%N] ++ host ++ [45%N; 64%N; 91%N; 93%N].
+Proof. exact OwnerProofs.forward_sender_forms. Qed.
+Print Assumptions forward_sender_is_original_or_owner.
